@@ -101,9 +101,9 @@ def assign (x y : PState) : PState :=
               |>.set .satc y.satc |>.set .satg y.satg |>.set .cpend y.cpend |>.set .gpend y.gpend
     -- systems and matrices not assigned keep their old (now meaningless) contents
     let x := if y.cup then x.set .csS y.csS |>.set .rC y.rC |>.set .vC y.vC |>.set .mC y.mC |>.set .pC y.pC
-             else x.set .vC false |>.set .mC false
+             else x.set .vC false |>.set .mC false |>.set .pC false
     let x := if y.gup then x.set .gsS y.gsS |>.set .rG y.rG |>.set .vG y.vG |>.set .mG y.mG |>.set .pG y.pG
-             else x.set .vG false |>.set .mG false
+             else x.set .vG false |>.set .mG false |>.set .pG false
     x.set .dd (y.cup && y.gup && y.dd) |>.set .vSC (y.satc && y.vSC) |>.set .vSG (y.satg && y.vSG)
 
 /-! ## observers -/
@@ -402,11 +402,14 @@ def removeDims (g : Gh) (newDim : Nat) (s : PState) : PState :=
     clearGeneratorsMinimized (clearConstraintsUpToDate s)
 
 def removeSpaceDimensions (g : Gh) (f : Facts) (s : PState) : PState :=
-  if f.k == 0 then s else removeDims g (s.dim - f.k) s
+  if f.k == 0 then s
+  else if s.dim < f.k then s      -- (throws: the variables are not dimensions of the polyhedron)
+  else removeDims g (s.dim - f.k) s
 
 /-- `remove_higher_space_dimensions` keeps the rows (`set_space_dimension`): the `sorted` flag survives. -/
 def removeHigherSpaceDimensions (g : Gh) (f : Facts) (s : PState) : PState :=
   if f.nd == s.dim then s
+  else if s.dim < f.nd then s     -- (throws)
   else
     let r := needGensDroppingPending g s
     if r.1 then conClear (r.2.setDim f.nd).bump
